@@ -10,62 +10,16 @@ import (
 )
 
 func init() {
+	register("C01",
+		"C01-h = C07-a (FRESH, the writer owns its tables): every value stored into hostGroup.hosts is owned by the writer (nil, make, a copy, the field's own append/reslice). A reader's group table is a sub-slice of its host section with capacity reaching into the next group: adopted by AddIndex, a later add() overwrites the next group's first host — the merged file stores a wrong address for a stream (seeded C01l), and the open input reader is corrupted.",
+		func(p *Prog, r *Res) { ruleWriterOwnsTables(p, r, "C01-h writer-owns-tables") })
 	register("C07",
 		"C07-a (FRESH, the writer owns its tables): every value stored into hostGroup.hosts — the table hostGroup.add appends to and popN re-slices — is owned by the writer (nil, make, a copy, or the field's own append/reslice); adopting a reader's slice lets a later append overwrite the next host group of the input reader, which is still being served (defect repaired in e83173b). C07-c (every file-relative field is remapped): the fields of stream and packet that the reader uses as an index into another section of the same file, as an offset into the data section, or as a time relative to the file's reference second are derived from the reader's own code; in AddIndex each of them is re-assigned on every path between the record copy (newStream := *s / newPacket := *p) and the append to the writer's table, or re-based in the tail of AddIndex.",
 		ruleC07)
 }
 
 func ruleC07(p *Prog, r *Res) {
-	// ---------- C07-a ----------
-	const ruleA = "C07-a writer-owns-tables"
-	r.Rule(ruleA + ": values stored into hostGroup.hosts are owned by the writer")
-	hostsFld := p.Field("index", "hostGroup", "hosts")
-	oc := newOwnCtx(p)
-	na := 0
-	for _, f := range p.FnList {
-		if f.Short != "index" {
-			continue
-		}
-		info := f.Pkg.TypesInfo
-		inspectShallow(f.Body(), func(x ast.Node) bool {
-			switch s := x.(type) {
-			case *ast.CompositeLit:
-				if n := namedOf(info.TypeOf(s)); n != nil && n.Obj().Name() == "hostGroup" {
-					for _, el := range s.Elts {
-						if kv, ok := el.(*ast.KeyValueExpr); ok && types.ExprString(kv.Key) == "hosts" {
-							na++
-							okO, why := oc.owned(f, kv.Value)
-							r.Check(okO, ruleA, fmt.Sprintf("%s hostGroup{hosts: %s}", f.Key(), types.ExprString(kv.Value)), p.Pos(kv), why, "the writer adopts a host table it does not own ("+why+"): hostGroup.add appends to it, and with spare capacity in the adopted slice that overwrites the following host group of the input reader — which views are still serving — and of the merged file")
-						}
-					}
-				}
-			case *ast.AssignStmt:
-				for i, l := range s.Lhs {
-					if !isFieldOf(info, l, hostsFld) || i >= len(s.Rhs) {
-						continue
-					}
-					na++
-					rhs := ast.Unparen(s.Rhs[i])
-					key := fmt.Sprintf("%s %s = %s", f.Key(), types.ExprString(l), firstLine(types.ExprString(rhs)))
-					self := false
-					if c, ok := rhs.(*ast.CallExpr); ok && isBuiltin(info, c, "append") && types.ExprString(sliceBase(c.Args[0])) == types.ExprString(l) {
-						self = true
-					}
-					if sl, ok := rhs.(*ast.SliceExpr); ok && types.ExprString(sliceBase(sl)) == types.ExprString(l) {
-						self = true
-					}
-					if self {
-						r.OkTrivial(ruleA, key, p.Pos(s), "the table's own append / reslice")
-						continue
-					}
-					okO, why := oc.owned(f, rhs)
-					r.Check(okO, ruleA, key, p.Pos(s), why, "the writer's host table is set to memory it does not own: "+why)
-				}
-			}
-			return true
-		})
-	}
-	r.Floor(ruleA, 4, na)
+	ruleWriterOwnsTables(p, r, "C07-a writer-owns-tables")
 
 	// ---------- C07-c ----------
 	const ruleC = "C07-c file-relative-fields-remapped"
@@ -553,4 +507,57 @@ func ruleC07Retry(p *Prog, r *Res) {
 	}
 	r.Note("%s: %d retry loops (body ends in break/return, iterates again only through continue), %d appends to outer state from which the attempt can be abandoned", rule, nLoops, nApp)
 	r.Floor(rule+" retry loops", 1, nLoops)
+}
+
+// ruleWriterOwnsTables: C07-a / C01-h.
+func ruleWriterOwnsTables(p *Prog, r *Res, ruleA string) {
+	r.Rule(ruleA + ": values stored into hostGroup.hosts are owned by the writer")
+	hostsFld := p.Field("index", "hostGroup", "hosts")
+	oc := newOwnCtx(p)
+	na := 0
+	for _, f := range p.FnList {
+		if f.Short != "index" {
+			continue
+		}
+		info := f.Pkg.TypesInfo
+		inspectShallow(f.Body(), func(x ast.Node) bool {
+			switch s := x.(type) {
+			case *ast.CompositeLit:
+				if n := namedOf(info.TypeOf(s)); n != nil && n.Obj().Name() == "hostGroup" {
+					for _, el := range s.Elts {
+						if kv, ok := el.(*ast.KeyValueExpr); ok && types.ExprString(kv.Key) == "hosts" {
+							na++
+							okO, why := oc.owned(f, kv.Value)
+							r.Check(okO, ruleA, fmt.Sprintf("%s hostGroup{hosts: %s}", f.Key(), types.ExprString(kv.Value)), p.Pos(kv), why, "the writer adopts a host table it does not own ("+why+"): hostGroup.add appends to it, and with spare capacity in the adopted slice that overwrites the following host group of the input reader — which views are still serving — and of the merged file")
+						}
+					}
+				}
+			case *ast.AssignStmt:
+				for i, l := range s.Lhs {
+					if !isFieldOf(info, l, hostsFld) || i >= len(s.Rhs) {
+						continue
+					}
+					na++
+					rhs := ast.Unparen(s.Rhs[i])
+					key := fmt.Sprintf("%s %s = %s", f.Key(), types.ExprString(l), firstLine(types.ExprString(rhs)))
+					self := false
+					if c, ok := rhs.(*ast.CallExpr); ok && isBuiltin(info, c, "append") && types.ExprString(sliceBase(c.Args[0])) == types.ExprString(l) {
+						self = true
+					}
+					if sl, ok := rhs.(*ast.SliceExpr); ok && types.ExprString(sliceBase(sl)) == types.ExprString(l) {
+						self = true
+					}
+					if self {
+						r.OkTrivial(ruleA, key, p.Pos(s), "the table's own append / reslice")
+						continue
+					}
+					okO, why := oc.owned(f, rhs)
+					r.Check(okO, ruleA, key, p.Pos(s), why, "the writer's host table is set to memory it does not own: "+why)
+				}
+			}
+			return true
+		})
+	}
+	r.Floor(ruleA, 4, na)
+
 }
